@@ -52,6 +52,10 @@ def label_variants(sh, dev):
             pos = ['y' if ('t', i) in devs else 'x' for i in range(n)]
             words = ['w%d' % (i % 2) for i in range(n)]
             yield model.MT(1, model.mk_tokens(n, words=words, pos=pos), root)
+    # the default literals as real data: inner nodes labelled like the root, tokens tagged VROOT / EMPTY
+    root = model.decorate(sh, lambda p, s: 'VROOT')
+    yield model.MT(1, model.mk_tokens(n, words=['w%d' % (i % 2) for i in range(n)],
+                                      pos=[['VROOT', 'EMPTY', 'x'][i % 3] for i in range(n)]), root)
 
 
 def norm(g):
